@@ -1,11 +1,15 @@
 package hx
 
 import (
+	"bytes"
+	"crypto/sha256"
 	"encoding/hex"
 	"fmt"
 	"os"
 	"sort"
+	"strconv"
 	"strings"
+	"sync/atomic"
 	"time"
 
 	"rcproxy/core"
@@ -224,6 +228,10 @@ func (w *Worker) settle(max int) {
 	for i := 0; i < max; i++ {
 		w.flushOut()
 		if !w.iterate(200 * time.Microsecond) {
+			if atomic.LoadInt32(&w.Cl.Writing) > 0 && !w.Dead {
+				time.Sleep(time.Millisecond) // a large reply is still being written by a node
+				continue
+			}
 			return
 		}
 	}
@@ -303,6 +311,13 @@ func (w *Worker) apply(st *Stim) {
 				rb := w.Cl.Concrete(c.Name, c.NSent, r)
 				b = append(b, rb...)
 				ev.Size = len(rb)
+				if w.Cfg.RawLog {
+					low := lowerName(rb)
+					if len(rb) <= 4096 {
+						ev.Bytes = IntBytes(rb)
+					}
+					ev.Raw = fmt.Sprintf("sha256:%x:%d", sha256.Sum256(low), len(low))
+				}
 				if r.K == "cmd" && len(r.Args) > 0 {
 					ev.Txt = strings.ToLower(r.Args[0]) // the name as the (case-insensitive) table knows it
 					ev.Num = len(r.Args) - 1
@@ -330,7 +345,23 @@ func (w *Worker) apply(st *Stim) {
 			}
 		}
 		b = b[prev:]
-		if err := c.Write(b); err != nil {
+		if len(b) > 60000 {
+			// larger than what the socket buffers take while the loop is parked: write in the background and
+			// let the proxy iterate until everything has been handed to the kernel
+			done := make(chan error, 1)
+			go func() { done <- c.Write(b) }()
+			for fin := false; !fin && !w.Dead; {
+				select {
+				case err := <-done:
+					if err != nil {
+						w.Log.Add(Event{Ev: "sendfail", C: c.Name, Txt: err.Error()})
+					}
+					fin = true
+				case <-time.After(2 * time.Millisecond):
+					w.iterate(200 * time.Microsecond)
+				}
+			}
+		} else if err := c.Write(b); err != nil {
 			w.Log.Add(Event{Ev: "sendfail", C: c.Name, Txt: err.Error()})
 		}
 	case "cclose":
@@ -413,6 +444,14 @@ func (w *Worker) apply(st *Stim) {
 		}
 		if n > 0 {
 			w.Unreal++
+		}
+	case "pause":
+		if c, ok := w.Clients[st.C]; ok {
+			c.Paused = true
+		}
+	case "resume":
+		if c, ok := w.Clients[st.C]; ok {
+			c.Paused = false
 		}
 	case "wake":
 		w.H.Wake()
@@ -515,6 +554,30 @@ func (w *Worker) reset() {
 	w.Clients = map[string]*Client{}
 	w.expired = map[uint64]bool{}
 	w.Log.Tid = saveTid
+}
+
+// lowerName returns the request with its command name (first bulk string) in lower case.
+func lowerName(b []byte) []byte {
+	out := append([]byte(nil), b...)
+	i := bytes.Index(out, []byte("\r\n"))
+	if i < 0 || len(out) < i+3 || out[i+2] != '$' {
+		return out
+	}
+	j := bytes.Index(out[i+2:], []byte("\r\n"))
+	if j < 0 {
+		return out
+	}
+	n, err := strconv.Atoi(string(out[i+3 : i+2+j]))
+	st := i + 2 + j + 2
+	if err != nil || st+n > len(out) {
+		return out
+	}
+	for k := st; k < st+n; k++ {
+		if out[k] >= 'A' && out[k] <= 'Z' {
+			out[k] += 32
+		}
+	}
+	return out
 }
 
 // Fatal prints and exits with the harness-failure status (2): never a property verdict.
